@@ -132,7 +132,7 @@ Proof. apply list_eqb_eq, row_eqb_eq. Qed.
 
 Lemma listing_ext a b : (forall ds k, latest ds k a = latest ds k b) -> listing a = listing b.
 Proof.
-  intros H. unfold listing. induction universe as [|dk u IH]; cbn; [reflexivity|]. now rewrite H, IH.
+  intros H. unfold listing, visible. induction universe as [|dk u IH]; cbn; [reflexivity|]. now rewrite !H, IH.
 Qed.
 
 (** the cases the link theorem speaks about: a native-mode history without delete-all (that
